@@ -346,7 +346,30 @@ func (e *Engine) splitGoal(g *smt.Term, hyps []*smt.Term, out *[]subgoal, sk *[]
 	case smt.OImplies:
 		e.splitGoal(g.Args[1], append(append([]*smt.Term(nil), hyps...), g.Args[0]), out, sk)
 		return
+	case smt.OIte:
+		if g.Sort == smt.Bool {
+			e.splitGoal(g.Args[1], append(append([]*smt.Term(nil), hyps...), g.Args[0]), out, sk)
+			e.splitGoal(g.Args[2], append(append([]*smt.Term(nil), hyps...), c.Not(g.Args[0])), out, sk)
+			return
+		}
 	case smt.OForall:
+		// constant small range: expand into one sub-goal per index
+		if len(g.BVars) == 1 && g.Args[0].Op == smt.OImplies {
+			rng := g.Args[0].Args[0]
+			bv := g.BVars[0]
+			if rng.Op == smt.OAnd && len(rng.Args) == 2 {
+				lo, hi := rng.Args[0], rng.Args[1]
+				if lo.Op == smt.OBvSle && lo.Args[1] == bv && lo.Args[0].IsConst() && hi.Op == smt.OBvSlt && hi.Args[0] == bv && hi.Args[1].IsConst() {
+					l, h := int64(lo.Args[0].Val), int64(hi.Args[1].Val)
+					if h-l <= 32 {
+						for k := l; k < h; k++ {
+							e.splitGoal(c.Subst(g.Args[0].Args[1], map[*smt.Term]*smt.Term{bv: c.BVC(64, uint64(k))}), hyps, out, sk)
+						}
+						return
+					}
+				}
+			}
+		}
 		m := map[*smt.Term]*smt.Term{}
 		for _, v := range g.BVars {
 			s := c.Fresh("sk$"+strings.SplitN(v.Name, "?", 2)[0], v.Sort)
@@ -399,30 +422,183 @@ func (e *Engine) literalAxioms(ts []*smt.Term) []*smt.Term {
 // relevant drops hypotheses that talk about dead array versions: a hypothesis is kept
 // iff every array-sorted free symbol it mentions also occurs in the goal (or it
 // mentions none). Dropping hypotheses is always sound.
-func relevant(hyps []*smt.Term, goal *smt.Term) []*smt.Term {
+// propagate performs unit propagation of literal hypotheses through implications and
+// substitutes fresh symbols that are defined by an equation (v = t), to a fixpoint.
+// The result is equivalent to the input (hyps |- goal), only syntactically simpler.
+func (e *Engine) propagate(hyps []*smt.Term, goal *smt.Term) ([]*smt.Term, *smt.Term) {
+	c := e.C
+	isFreshVar := func(t *smt.Term) bool {
+		if t.Op != smt.OVar || t.Sort.K == smt.KArr {
+			return false
+		}
+		n := t.Name
+		return strings.HasPrefix(n, "havoc$") || strings.HasPrefix(n, "ret$") || strings.HasPrefix(n, "loop$") || strings.HasPrefix(n, "appendcap")
+	}
+	contains := func(t, v *smt.Term) bool {
+		for _, x := range smt.FreeVars(t) {
+			if x == v {
+				return true
+			}
+		}
+		return false
+	}
+	for round := 0; round < 12; round++ {
+		changed := false
+		truth := map[*smt.Term]bool{} // literal -> known value
+		for _, h := range hyps {
+			if h.Op == smt.ONot {
+				truth[h.Args[0]] = false
+			} else if h.Op != smt.OAnd && h.Op != smt.OImplies && h.Op != smt.OForall {
+				truth[h] = true
+			}
+		}
+		// rewrite known literals inside other hypotheses
+		m := map[*smt.Term]*smt.Term{}
+		for l, v := range truth {
+			if l.Op == smt.OConst {
+				continue
+			}
+			m[l] = c.BoolC(v)
+		}
+		var nh []*smt.Term
+		seen := map[*smt.Term]bool{}
+		for _, h := range hyps {
+			var r *smt.Term
+			lit := h
+			if h.Op == smt.ONot {
+				lit = h.Args[0]
+			}
+			if _, isLit := truth[lit]; isLit && (h.Op != smt.OAnd && h.Op != smt.OImplies && h.Op != smt.OForall) {
+				// keep the literal itself, but simplify inside it using the *other* literals
+				delete(m, lit)
+				r = c.Subst(h, m)
+				m[lit] = c.BoolC(truth[lit])
+			} else {
+				r = c.Subst(h, m)
+			}
+			if r != h {
+				changed = true
+			}
+			var parts []*smt.Term
+			e.splitHyp(r, &parts)
+			for _, p := range parts {
+				if !seen[p] {
+					seen[p] = true
+					nh = append(nh, p)
+				}
+			}
+		}
+		hyps = nh
+		g2 := c.Subst(goal, m)
+		if g2 != goal {
+			goal = g2
+			changed = true
+		}
+		// definitional equalities
+		sub := map[*smt.Term]*smt.Term{}
+		for _, h := range hyps {
+			if h.Op != smt.OEq {
+				continue
+			}
+			a, b := h.Args[0], h.Args[1]
+			if isFreshVar(b) && !isFreshVar(a) {
+				a, b = b, a
+			}
+			if isFreshVar(a) && !contains(b, a) {
+				if _, dup := sub[a]; !dup {
+					// avoid cyclic substitutions within one round
+					cyc := false
+					for v := range sub {
+						if contains(b, v) {
+							cyc = true
+						}
+					}
+					if !cyc {
+						sub[a] = b
+					}
+				}
+			}
+		}
+		if len(sub) > 0 {
+			changed = true
+			var nh2 []*smt.Term
+			for _, h := range hyps {
+				r := c.Subst(h, sub)
+				if !r.IsTrue() {
+					nh2 = append(nh2, r)
+				}
+			}
+			hyps = nh2
+			goal = c.Subst(goal, sub)
+		}
+		if !changed {
+			break
+		}
+		if goal.IsTrue() {
+			break
+		}
+	}
+	return hyps, goal
+}
+
+// splitHyp breaks a hypothesis into independent conjuncts so that relevance
+// filtering works at the granularity of single facts.
+func (e *Engine) splitHyp(h *smt.Term, out *[]*smt.Term) {
+	c := e.C
+	switch h.Op {
+	case smt.OAnd:
+		for _, a := range h.Args {
+			e.splitHyp(a, out)
+		}
+		return
+	case smt.OImplies:
+		var cons []*smt.Term
+		e.splitHyp(h.Args[1], &cons)
+		if len(cons) > 1 {
+			for _, x := range cons {
+				*out = append(*out, c.Implies(h.Args[0], x))
+			}
+			return
+		}
+	case smt.OIte:
+		if h.Sort == smt.Bool {
+			e.splitHyp(c.Implies(h.Args[0], h.Args[1]), out)
+			e.splitHyp(c.Implies(c.Not(h.Args[0]), h.Args[2]), out)
+			return
+		}
+	}
+	if !h.IsTrue() {
+		*out = append(*out, h)
+	}
+}
+
+func relevant(hyps []*smt.Term, goal *smt.Term, extra []*smt.Term) []*smt.Term {
+	// only versioned (havoc/loop) array symbols are subject to liveness
 	arrVars := func(t *smt.Term) map[*smt.Term]bool {
 		out := map[*smt.Term]bool{}
 		for _, v := range smt.FreeVars(t) {
-			if v.Sort.K == smt.KArr && !strings.HasPrefix(v.Name, "heap$$alloc") {
+			if v.Sort.K == smt.KArr && (strings.HasPrefix(v.Name, "havoc$") || strings.HasPrefix(v.Name, "loop$")) {
 				out[v] = true
 			}
 		}
 		return out
 	}
 	live := arrVars(goal)
-	// ground hypotheses that equate/define arrays in terms of live ones extend the set
-	changed := true
+	for _, x := range extra {
+		for v := range arrVars(x) {
+			live[v] = true
+		}
+	}
 	hv := make([]map[*smt.Term]bool, len(hyps))
 	for i, h := range hyps {
 		hv[i] = arrVars(h)
 	}
+	changed := true
 	for changed {
 		changed = false
 		for i, h := range hyps {
-			if h.Op == smt.OForall || h.Op == smt.OExists {
-				continue
-			}
-			if h.Op != smt.OEq || h.Args[0].Sort.K != smt.KArr {
+			_ = h
+			if len(hv[i]) < 2 {
 				continue
 			}
 			touch := false
@@ -671,8 +847,20 @@ func (e *Engine) Discharge(obs []*Obligation, opts DischargeOpts) {
 		ob.Skolems = sk
 		var cases []subgoal
 		for _, sg := range subs {
-			hy0 := append(append([]*smt.Term(nil), ob.Hyps...), sg.hyps...)
-			hy0 = relevant(hy0, sg.goal)
+			var hy0 []*smt.Term
+			seenH := map[*smt.Term]bool{}
+			for _, h := range append(append([]*smt.Term(nil), ob.Hyps...), sg.hyps...) {
+				var parts []*smt.Term
+				e.splitHyp(h, &parts)
+				for _, p := range parts {
+					if !seenH[p] {
+						seenH[p] = true
+						hy0 = append(hy0, p)
+					}
+				}
+			}
+			hy0, sg.goal = e.propagate(hy0, sg.goal)
+			hy0 = relevant(hy0, sg.goal, sg.hyps)
 			cases = append(cases, e.caseSplit(hy0, sg.goal, sk)...)
 		}
 		for _, sg := range cases {
@@ -690,6 +878,7 @@ func (e *Engine) Discharge(obs []*Obligation, opts DischargeOpts) {
 			asserts := append([]*smt.Term(nil), hy...)
 			asserts = append(asserts, e.C.Not(sg.goal))
 			asserts = append(asserts, e.literalAxioms(asserts)...)
+			asserts = append(asserts, e.sentinelAxioms(asserts)...)
 			var vals []*smt.Term
 			if opts.Models {
 				vals = smt.FreeVars(asserts...)
